@@ -113,7 +113,7 @@ theorem pr_openAnnounce {w0 w : World} (sid : Nat) (trName : String) (proto : Na
   apply pr_sev _ _ rfl rfl
   · have : ({ w1 with registry := w1.registry ++ [sid] } : World).sock sid = w1.sock sid := rfl
     simp [closedW, this, hopen1]
-  · exact (pr_sv h v).trans (pres_register w1 sid hsz1 hnew1 hnc1)
+  · exact (pr_sv h v).trans (pres_register w1 sid hsz1 hnew1 hnc1 (by rw [hopen1]; simp))
 
 theorem pr_openSession {w0 w : World} (ti proto : Nat) (h : Pres w0 w) : Pres w0 (openSession w ti proto) := by
   refine h.trans (fun i => ?_)
